@@ -111,7 +111,17 @@ def api_case(case):
     except Exception:
         return {'skip': 1}
 
+    def source(spec):
+        s = smiles(spec['src'])
+        s.kekule()
+        if spec.get('thiele'):
+            s.thiele()
+        return s, list(s._atoms)[spec['atom']]
+
     def build(spec):
+        if spec['kind'] == 'from_atom':      # QueryElement.from_atom(atom, <flags>): the atom's own attributes are the request
+            s, n = source(spec)
+            return QueryElement.from_atom(s.atom(n), **{f: True for f in spec['flags']})
         kw = {k: v for k, v in spec['kw'].items()}
         setter = spec.get('setter')
         if setter:
@@ -130,6 +140,19 @@ def api_case(case):
     def want(spec):
         def lst(v):
             return [] if v is None else (list(v) if isinstance(v, (list, tuple)) else [v])
+        if spec['kind'] == 'from_atom':
+            s, n = source(spec)
+            nbrs = s._bonds[n]
+            orders = [int(b._order) for b in nbrs.values()]
+            hyb = 4 if 4 in orders else 3 if 3 in orders or orders.count(2) >= 2 else 2 if 2 in orders else 1
+            fl = spec['flags']
+            a = s._atoms[n]
+            return {'kind': 'elem', 'zs': [a.atomic_number], 'i': a._isotope or 0, 'c': a._charge, 'r': 1 if a._is_radical else 0,
+                    'nb': [sum(1 for x in nbrs if s._atoms[x].atomic_number != 1)] if 'neighbors' in fl else [],
+                    'hyb': [hyb] if 'hybridization' in fl else [],
+                    'rs': sorted({len(r) for r in s.sssr if n in r}) if 'ring_sizes' in fl else [],
+                    'hs': [a._implicit_hydrogens] if 'hydrogens' in fl and a._implicit_hydrogens is not None else [],
+                    'het': [sum(1 for x in nbrs if s._atoms[x].atomic_number not in (1, 6))] if 'heteroatoms' in fl else [], 'masked': 0, 'st': 2}
         kw = spec['kw']
         return {'kind': spec['kind'], 'zs': sorted(spec['zs']), 'i': 0, 'c': kw.get('charge', 0), 'r': 0, 'nb': lst(kw.get('neighbors')), 'hyb': lst(kw.get('hybridization')),
                 'rs': [], 'hs': lst(kw.get('implicit_hydrogens')), 'het': lst(kw.get('heteroatoms')), 'masked': 0, 'st': 2}
@@ -142,8 +165,11 @@ def api_case(case):
         pp['bonds'] = [[1, 2, [case['order']], -1]]
     tp, tidx = qproj.target_of(t)
     order = list(q._atoms)
-    maps = [[tidx[mp[n]] for n in order] for mp in q.get_mapping(t, automorphism_filter=False)]
-    return {'p': pp, 't': tp, 'scope': [], 'filter': 0, 'maps': maps, 'sub': 9, 'lt': 9, 'le': 9, 'eq': 9}
+    try:
+        maps, exc = [[tidx[mp[n]] for n in order] for mp in q.get_mapping(t, automorphism_filter=False)], ''
+    except Exception as e:       # a query the API accepted must be searchable
+        maps, exc = [], type(e).__name__
+    return {'p': pp, 't': tp, 'scope': [], 'filter': 0, 'maps': maps, 'sub': 9, 'lt': 9, 'le': 9, 'eq': 9, 'exc': exc}
 
 
 def smarts_of_shape(smi):
@@ -267,6 +293,18 @@ def run(ck):
         ck.count('stereo-query-matches', sum(len(r['maps']) for _, r in keep))
     # queries built through the API (scalars, lists, setters): the requested attributes are the specification
     ac = []
+    # query atoms copied from molecule atoms with every combination of one flag, and with all of them
+    flags = ['neighbors', 'hybridization', 'heteroatoms', 'hydrogens', 'ring_sizes']
+    for src in ['CC1CC1O', 'c1ccccc1CN', 'C1CC12CCCC2', 'OC(=O)C#N', 'C1CC2CCC1C2', 'CC(C)=O', 'C[N+](C)(C)C', 'c1ccc2ccccc2c1']:
+        from chython import smiles as _sm
+        try:
+            na = len(_sm(src))
+        except Exception:
+            continue
+        for k in range(na):
+            for fl in [[f] for f in flags] + [flags]:
+                for t in (src, 'CC1CC1O.c1ccccc1CN', 'C1CC12CCCC2.OC(=O)C#N'):
+                    ac.append({'key': f'from_atom|{src}|{k}|{"+".join(fl)}|{t}', 't': t, 'atoms': [{'kind': 'from_atom', 'src': src, 'atom': k, 'flags': fl, 'thiele': 'c' in src}]})
     apit = ['C', 'CC', 'CO', 'CC(C)(C)C', 'CC(=O)O', '[Na+].[Cl-]', 'O', 'N#N', 'FC(F)(F)F', 'CS(C)(=O)=O', 'OCCN', 'C=CC#N', 'ClCCl', 'CNC', '[NH4+].[OH-]']
     for t in apit:
         for name in ('neighbors', 'heteroatoms', 'implicit_hydrogens', 'hybridization'):
